@@ -408,6 +408,18 @@ def main():
     add("R19.i", "uptodate-only-before-loop", "bin/newpolicy.sh", "`uptodate` is not called inside the retry loop", not up_in_loop,
         "uptodate inside the loop compares with the clone that just pushed the revert: %s" % [c.text for c in up_in_loop])
 
+    # ---- R19.m: the verdict of a function that is used as a condition is stated explicitly
+    rule("R19.m", "A function of the script whose exit status decides a branch of main (`if try_revert; then continue`, `uptodate && exit`) states its verdict explicitly: its last command, outside any if or loop, is `return N`, `exit N` or a test (`[ ... ]`, true, false). A function that falls off its end returns the status of whatever ran last -- a `mail` that could not be delivered after the revert was pushed reads as `no revert`: the loop ends, the reverted state is never compiled, and every later run finds its clone up to date.")
+    verdict_fns = sorted({c.words[0] for c in mainc if c.words and c.words[0] in funcs and (c.ctx[-1:] == ["cond"] or any(d.order == c.order + 1 and d.andor in ("&&", "||") for d in mainc))})
+    for f in verdict_fns:
+        body = [c for c in cmds if c.func == f]
+        last = max(body, key=lambda c: c.order) if body else None
+        okv = (last is not None and last.words[:1] in (["return"], ["exit"], ["["], ["[["], ["test"], ["true"], ["false"])
+               and last.andor in (None, "") and all(x in ("subshell", "group") for x in last.ctx))
+        add("R19.m", "explicit-verdict|" + f, "bin/newpolicy.sh", "`%s` is used as a condition in main; its last command is `%s`" % (f, last.text if last else ""), okv,
+            "the function ends without an explicit return: its verdict is the exit status of its last command")
+    add("R19.m", "floor|verdict-functions", "bin/newpolicy.sh", "%d function(s) used as conditions in main: %s" % (len(verdict_fns), verdict_fns), len(verdict_fns) >= 1, "")
+
     # ---- R19.b / R19.e
     writers = [c for c in cmds if writes_path(c, cur)]
     add("R19.b", "floor|writers-of-current", "bin/newpolicy.sh", "%d commands write `current`" % len(writers), len(writers) >= 2, "expected at least rm and ln")
